@@ -7,4 +7,8 @@ RRepeats == {33}
 RFactors == {<<1, 2>>}
 ROps == {"Add", "AddRepeat", "EncDec", "Reweight", "CopyTo"}
 RInit == (1 :> NewStore("exact", 0)) @@ (2 :> NewStore("exact", 0))
+RSlotKeys == (1 :> {1, 2}) @@ (2 :> {1, 2})
+RAsc == {}
+RDesc == {}
+RPairs == {}
 ====
